@@ -371,64 +371,69 @@ func c19Profile(tier string, kvOnly bool) *eng.Profile {
 	p := &eng.Profile{ID: "C19", Name: name, Cfgs: []core.Cfg{base},
 		Ops: func(core.Cfg) []core.Op { return ops }, Obs: func(core.Cfg) []core.Call { return queries }, Depth: 2, NoKappa: true,
 		Run: func(p *eng.Profile, cfg core.Cfg, hist []core.Op, leaf *eng.Leaf) {
-			ref := c19Run(base, hist, queries)
-			leaf.ObsHash = core.Hash(fmt.Sprint(ref.obs))
-			leaf.ModelHash = leaf.ObsHash
-			leaf.Nontrivial = true
-			if ref.fail != "" {
-				// the baseline itself fails: other properties' business
-				leaf.NoExpand = true
-				return
-			}
-			for _, v := range variants {
-				if v == base {
-					continue
-				}
-				leaf.Evals += len(queries)*2 + len(hist)
-				t := c19Run(v, hist, queries)
-				add := func(kind string, atoms []string, detail ...string) {
-					leaf.Viol = append(leaf.Viol, eng.Violation{Prop: "C19", Kind: kind, Cfg: v, Ops: hist, Detail: detail, Atoms: atoms, What: atoms[0], Tags: nil,
-						Extra: map[string]interface{}{"variant": v.String()}})
-				}
-				if t.fail != "" {
-					add("variant-failed", []string{eng.ErrClass(t.fail)}, v.String()+": "+t.fail)
-					continue
-				}
-				for i := range ref.steps {
-					if i < len(t.steps) && ref.steps[i] != t.steps[i] {
-						add("call-diff", []string{hist[i].Kind + ":" + eng.CallNames(hist[i])}, fmt.Sprintf("%s op %d %s: baseline %s, variant %s", v, i+1, hist[i], ref.steps[i], t.steps[i]))
-						break
-					}
-				}
-				qs := queries
-				if v.Mode != core.KV && !kvOnly {
-					continue
-				}
-				if d := core.DiffObs(qs, ref.obs, t.obs); len(d) > 0 {
-					var atoms, det []string
-					for _, m := range d {
-						atoms = append(atoms, m.Atom())
-						det = append(det, v.String()+" "+m.String())
-					}
-					add("obs-diff", uniq(atoms), det...)
-				} else if d := core.DiffObs(qs, ref.reobs, t.reobs); len(d) > 0 {
-					var atoms, det []string
-					for _, m := range d {
-						atoms = append(atoms, m.Atom())
-						det = append(det, v.String()+" after reopen "+m.String())
-					}
-					add("reopen-obs-diff", uniq(atoms), det...)
-				}
-			}
-			if len(leaf.Viol) > 0 {
-				leaf.NoExpand = true
-			}
+			c19Compare(base, variants, kvOnly, hist, queries, leaf)
 		},
 	}
 	if tier == "thorough" {
 		p.Depth = 3
 	}
 	return p
+}
+
+// c19Compare runs one history under the baseline and under every variant and records the differences.
+func c19Compare(base core.Cfg, variants []core.Cfg, kvOnly bool, hist []core.Op, queries []core.Call, leaf *eng.Leaf) {
+	ref := c19Run(base, hist, queries)
+	leaf.ObsHash = core.Hash(fmt.Sprint(ref.obs))
+	leaf.ModelHash = leaf.ObsHash
+	leaf.Nontrivial = true
+	if ref.fail != "" {
+		// the baseline itself fails: other properties' business
+		leaf.NoExpand = true
+		return
+	}
+	for _, v := range variants {
+		if v == base {
+			continue
+		}
+		leaf.Evals += len(queries)*2 + len(hist)
+		t := c19Run(v, hist, queries)
+		add := func(kind string, atoms []string, detail ...string) {
+			leaf.Viol = append(leaf.Viol, eng.Violation{Prop: "C19", Kind: kind, Cfg: v, Ops: hist, Detail: detail, Atoms: atoms, What: atoms[0], Tags: nil,
+				Extra: map[string]interface{}{"variant": v.String()}})
+		}
+		if t.fail != "" {
+			add("variant-failed", []string{eng.ErrClass(t.fail)}, v.String()+": "+t.fail)
+			continue
+		}
+		for i := range ref.steps {
+			if i < len(t.steps) && ref.steps[i] != t.steps[i] {
+				add("call-diff", []string{hist[i].Kind + ":" + eng.CallNames(hist[i])}, fmt.Sprintf("%s op %d %s: baseline %s, variant %s", v, i+1, hist[i], ref.steps[i], t.steps[i]))
+				break
+			}
+		}
+		qs := queries
+		if v.Mode != core.KV && !kvOnly {
+			continue
+		}
+		if d := core.DiffObs(qs, ref.obs, t.obs); len(d) > 0 {
+			var atoms, det []string
+			for _, m := range d {
+				atoms = append(atoms, m.Atom())
+				det = append(det, v.String()+" "+m.String())
+			}
+			add("obs-diff", uniq(atoms), det...)
+		} else if d := core.DiffObs(qs, ref.reobs, t.reobs); len(d) > 0 {
+			var atoms, det []string
+			for _, m := range d {
+				atoms = append(atoms, m.Atom())
+				det = append(det, v.String()+" after reopen "+m.String())
+			}
+			add("reopen-obs-diff", uniq(atoms), det...)
+		}
+	}
+	if len(leaf.Viol) > 0 {
+		leaf.NoExpand = true
+	}
 }
 
 func uniq(in []string) []string {
@@ -458,9 +463,10 @@ func init() {
 		runLong(r)
 	}
 	Registry["C19"] = func(r *Run) {
-		r.Rule = "every sequence of <=depth ops (KV alphabet: depth 3, in 16 RAM-mode option combinations RWMode x StartFileLoadingMode x SyncEnable x {KeyVal,Key} + 2 sparse; mixed alphabet: depth 2, 8 combinations) is executed under every combination; per-call results, the final observation and the observation after close+reopen are compared with the baseline configuration KV/FileIO/FileIO/nosync - no reference model involved"
+		r.Rule = "every sequence of <=depth ops (KV alphabet: depth 3, in 16 RAM-mode option combinations RWMode x StartFileLoadingMode x SyncEnable x {KeyVal,Key} + 2 sparse; mixed alphabet: depth 2, 8 combinations) is executed under every combination; per-call results, the final observation and the observation after close+reopen are compared with the baseline configuration KV/FileIO/FileIO/nosync - no reference model involved; plus long deterministic KV families (4..9, thorough 14, single-put transactions in three key orders, reopen, overwrites/deletes, reopen; segment sizes 100/150/200/260) under all 18 combinations"
 		r.Assume = []string{"SPop may return any member, its value is not compared across configurations"}
 		r.Explore(c19Profile(r.Tier, true), "C19")
 		r.Explore(c19Profile(r.Tier, false), "C19")
+		runC19Long(r)
 	}
 }
